@@ -17,7 +17,7 @@ COMMON_TRUST = [
 NOT_APPLICABLE = {}
 # properties whose check exists but is not registered yet (e.g. repairs of genuine defects it reports are still being
 # committed to /repo); empty when everything built is claimed
-HOLD = {"C06": "check built (reference writer + independent reader in Lean); it reports genuine reader defects (F12 F26 F27 F52-F55 F58) whose repairs are being committed to /repo; claimed once they are in"}
+HOLD = {}
 import os as _os
 if _os.environ.get("VERIF_UNHOLD"):
     HOLD = {}
